@@ -164,6 +164,19 @@ def memgrid(tier):
                         n += 1
 
 
+EXPRS = ['-8-4', '+8-4', '-8+4', '+64-8-4', '-1-1-1', '+2*4', '+2*4+1', '+1+2*4', '+(2+3)*4', '-(2+3)', '+16-(8-4)', '+0x10-0x8-0x4', '+100-10-1+5', '+3*4-2*3', '-2*3-1']
+
+
+def exprgrid():
+    """Constant expressions (several operators, both associativities, parentheses) in displacements and immediates."""
+    n = 0
+    for e in EXPRS:
+        for fmt, mn, shape in (('mov eax, DWORD PTR [ebx%s]', 'mov', 'exprgrid:r32,m32'), ('lea ecx, [esi+edi*2%s]', 'lea', 'exprgrid:r32,m0'),
+                               ('add esp, 64%s', 'add', 'exprgrid:r32,i'), ('mov BYTE PTR [eax%s], 1', 'mov', 'exprgrid:m8,i'), ('push 1000%s', 'push', 'exprgrid:i')):
+            yield n, fmt % e, mn, shape, None
+            n += 1
+
+
 def imm_class(v, width):
     if v is None:
         return '-'
@@ -193,5 +206,8 @@ def lines(tier, seed, part, nparts):
             for shape, ops, v in shapes(rng):
                 yield ('%s %s' % (mn, ops)).strip(), mn, shape, v
     for n, line, mn, shape, v in memgrid(tier):
+        if n % nparts == part:
+            yield line, mn, shape, v
+    for n, line, mn, shape, v in exprgrid():
         if n % nparts == part:
             yield line, mn, shape, v
